@@ -2,9 +2,10 @@
     Only the property theorems (each closed by [exact]), their axiom audit and
     non-vacuity examples.  [1 <= T < 2^31] is the int32 range of bitmapSize
     (height <= 30), [from], [to] range over all of uint64. *)
-From Coq Require Import ZArith List Bool Lia.
-From Low Require Import Lib.Bits Lib.BitSeq Lib.SortedZ_tree4 Spec.Bmtree Spec.AllPathsSpec
-  Model.BmtreePath Model.BmtreeIndex Model.BmtreeAllPaths Proofs.BmtreeAllPathsProofs.
+From Coq Require Import ZArith List Bool Lia Sorting.Sorted.
+From Low Require Import Lib.Bits Lib.BitSeq Lib.Val Lib.SortedZ_tree4 Spec.Bmtree Spec.AllPathsSpec Spec.OfSpec
+  Spec.FromStr32Spec Model.BmtreePath Model.BmtreeIndex Model.BmtreeAllPaths Model.BitmapOf Model.FromStr32 Lib.Lex Lib.Bytes
+  Proofs.BmtreeAllPathsProofs Proofs.BmtreeDecodeProofs Proofs.BmtreeWinProofs Proofs.BmtreeAllPathsLaws Proofs.BmtreeDecodeDebugProofs Proofs.BmtreeC04Checkers Proofs.BmtreeKeysRoundTrip Proofs.BmtreeSubtree_c04 Run.C04.
 Import ListNotations.
 Open Scope Z_scope.
 
@@ -38,3 +39,206 @@ Example C04_allpaths_nonvacuous :
   Some [0x200000003c; 0x200000003e; 0x200000003f; 0x210000003f; 0x220000003e; 0x220000003f; 0x230000003f]
   /\ (1 <= 114 < 2 ^ 31).
 Proof. split; [vm_compute; reflexivity|lia]. Qed.
+
+(** Decode(T, bm) = the stored words, in pre-order, whose PathToIndex bit is 1 in bm; a word index
+    beyond len(bm) reads as 0 ([nth _ _ false]); bitmaps shorter or longer than T bits.
+    [zlen bm < 2^31] is Go's own range of [int32(len(bm))]. *)
+Theorem C04_decode : forall T bm, 1 <= T < 2 ^ 31 -> zlen bm < 2 ^ 31 ->
+  Decode T bm =
+  Some (filter (fun w => match PathToIndex T w with
+                         | Some idx => nth (Z.to_nat idx) (flat bm) false
+                         | None => false end)
+               (map (enc (Z.to_nat (Height T))) (stored_nodes T (Z.to_nat (Height T))))).
+Proof. exact decode_by_index. Qed.
+Print Assumptions C04_decode.
+
+(** the same by position: the k-th stored node in pre-order is returned iff bit k of bm is 1 (with C03) *)
+Theorem C04_decode_positions : forall T bm, 1 <= T < 2 ^ 31 -> zlen bm < 2 ^ 31 ->
+  Decode T bm =
+  Some (select_by (flat bm) 0 (map (enc (Z.to_nat (Height T))) (stored_nodes T (Z.to_nat (Height T))))).
+Proof. exact decode_correct. Qed.
+Print Assumptions C04_decode_positions.
+
+(** bits at or beyond T are ignored *)
+Theorem C04_decode_ignores_beyond : forall T bm, 1 <= T < 2 ^ 31 -> zlen bm < 2 ^ 31 ->
+  Decode T bm =
+  Some (select_by (firstn (Z.to_nat T) (flat bm)) 0
+          (map (enc (Z.to_nat (Height T))) (stored_nodes T (Z.to_nat (Height T))))).
+Proof. exact decode_ignores_beyond. Qed.
+Print Assumptions C04_decode_ignores_beyond.
+
+(** round trip: for every sub-list ss of the stored nodes (in pre-order), every PathToIndex is defined,
+    Of(indices) does not panic and Decode returns exactly the words of ss *)
+Theorem C04_roundtrip : forall T ss, 1 <= T < 2 ^ 31 ->
+  StronglySorted pre_lt ss /\ (forall q, In q ss -> (length q <= Z.to_nat (Height T))%nat /\ stored T q = true) ->
+  exists idxs bm,
+    map (fun q => PathToIndex T (enc (Z.to_nat (Height T)) q)) ss = map Some idxs /\
+    Of idxs None = Some bm /\
+    Decode T bm = Some (map (enc (Z.to_nat (Height T))) ss).
+Proof. exact roundtrip_total. Qed.
+Print Assumptions C04_roundtrip.
+
+(** ... in particular for every subset of the stored nodes, given as a filter *)
+Theorem C04_roundtrip_subset : forall T (f : node -> bool), 1 <= T < 2 ^ 31 ->
+  let h := Z.to_nat (Height T) in
+  let ss := filter f (stored_nodes T h) in
+  exists idxs bm,
+    map (fun q => PathToIndex T (enc h q)) ss = map Some idxs /\
+    Of idxs None = Some bm /\ Decode T bm = Some (map (enc h) ss).
+Proof. exact roundtrip_filter. Qed.
+Print Assumptions C04_roundtrip_subset.
+
+(** T = 0b1110010: 114 stored nodes; a 3-word bitmap (one more word than needed) with bits 0, 1, 113
+    and bits beyond T: three words come back *)
+Example C04_decode_nonvacuous :
+  Decode 114 [3; 2 ^ 49 + 2 ^ 50; 1] = Some [0x20; 0x3c; 0x3f0000003f]
+  /\ (1 <= 114 < 2 ^ 31) /\ zlen [3; 2 ^ 49 + 2 ^ 50; 1] < 2 ^ 31.
+Proof. split; [vm_compute; reflexivity|]. split; [lia|reflexivity]. Qed.
+
+(** T = 7 (full tree of height 2), ss = root, 01, 1 *)
+Example C04_roundtrip_nonvacuous :
+  let ss := [[]; [false; true]; [true]] in
+  map (fun q => PathToIndex 7 (enc 2 q)) ss = map Some [0; 3; 4] /\
+  Of [0; 3; 4] None = Some [25] /\
+  Decode 7 [25] = Some (map (enc 2) ss) /\ map (enc 2) ss = [0; 0x100000003; 0x200000002] /\
+  ss = filter (fun q => match q with [] | [true] | [false; true] => true | _ => false end) (stored_nodes 7 2).
+Proof. vm_compute. repeat split; reflexivity. Qed.
+
+(** * the checker of the correspondence run is the specification
+    (on heights > 10 ./check evaluates the pruned enumeration [spec_allpaths_win]) *)
+Theorem C04_checker : forall T h from to, (h <= 32)%nat ->
+  check_allpaths T h from to =
+  filter (fun w => (from <=? w) && (w <? to)) (map (enc h) (stored_nodes T h)).
+Proof. exact check_allpaths_eq. Qed.
+Print Assumptions C04_checker.
+
+(** * widening: laws of AllPaths / PathToIndex / Decode / Of that users combine *)
+
+(** adjacent windows concatenate (sharding a key range by path words loses and duplicates nothing) *)
+Theorem C04_windows_concat : forall T a b c l1 l2, 1 <= T < 2 ^ 31 -> 0 <= a -> a <= b <= c -> c < 2 ^ 64 ->
+  AllPaths T a b = Some l1 -> AllPaths T b c = Some l2 -> AllPaths T a c = Some (l1 ++ l2).
+Proof. exact allpaths_split. Qed.
+Print Assumptions C04_windows_concat.
+
+(** the PathToIndex values of the words of any window are consecutive integers, starting at the
+    number of stored words below [from] *)
+Theorem C04_index_run : forall T from to l, 1 <= T < 2 ^ 31 -> 0 <= from < 2 ^ 64 -> 0 <= to < 2 ^ 64 ->
+  AllPaths T from to = Some l ->
+  map (PathToIndex T) l =
+  map (fun k => Some (Z.of_nat k))
+      (seq (length (filter (fun w => w <? from)
+                      (map (enc (Z.to_nat (Height T))) (stored_nodes T (Z.to_nat (Height T))))))
+           (length l)).
+Proof. exact allpaths_index_exact. Qed.
+Print Assumptions C04_index_run.
+
+(** the whole range (Decode's own call uses to = 1<<63) enumerates the indices 0 .. T-1 *)
+Theorem C04_index_all : forall T to, 1 <= T < 2 ^ 31 -> 2 ^ 63 <= to < 2 ^ 64 ->
+  exists l, AllPaths T 0 to = Some l /\
+            map (PathToIndex T) l = map (fun k => Some (Z.of_nat k)) (seq 0 (Z.to_nat T)).
+Proof. exact allpaths_index_all. Qed.
+Print Assumptions C04_index_all.
+
+(** Decode, then re-encode: the indices of the decoded words are the 1-bits of bm below T, Of of them
+    does not panic and has exactly those 1-bits *)
+Theorem C04_decode_reencode : forall T bm, 1 <= T < 2 ^ 31 -> zlen bm < 2 ^ 31 ->
+  exists l idxs r,
+    Decode T bm = Some l /\
+    map (PathToIndex T) l = map Some idxs /\
+    idxs = filter (fun p => p <? T) (ones (flat bm)) /\
+    Of idxs None = Some r /\ ones (flat r) = idxs /\ zlen r = words_for (of_bits idxs None).
+Proof. exact decode_reencode. Qed.
+Print Assumptions C04_decode_reencode.
+
+Example C04_windows_nonvacuous :
+  AllPaths 114 0x2000000021 0x210000003f = Some [0x200000003c; 0x200000003e; 0x200000003f] /\
+  AllPaths 114 0x210000003f 0x2400000030 = Some [0x210000003f; 0x220000003e; 0x220000003f; 0x230000003f] /\
+  map (PathToIndex 114) [0x200000003c; 0x200000003e; 0x200000003f] = map Some [58; 59; 60].
+Proof. vm_compute. repeat split; reflexivity. Qed.
+
+Example C04_reencode_nonvacuous :
+  Decode 114 [3; 2 ^ 49 + 2 ^ 50; 1] = Some [0x20; 0x3c; 0x3f0000003f] /\
+  map (PathToIndex 114) [0x20; 0x3c; 0x3f0000003f] = map Some [0; 1; 113] /\
+  Of [0; 1; 113] None = Some [3; 2 ^ 49].
+Proof. vm_compute. repeat split; reflexivity. Qed.
+
+(** * the [-tags debug] build (github.com/openacid/must active) *)
+
+(** no contract of PathToIndex fires on a word returned by AllPaths ... *)
+Theorem C04_debug_words : forall T from to l w, 1 <= T < 2 ^ 31 -> 0 <= from < 2 ^ 64 -> 0 <= to < 2 ^ 64 ->
+  AllPaths T from to = Some l -> In w l -> PathToIndex_debug T w = PathToIndex T w.
+Proof. exact allpaths_words_debug. Qed.
+Print Assumptions C04_debug_words.
+
+(** ... so Decode behaves exactly as in the release build, for every bitmap *)
+Theorem C04_decode_debug : forall T bm, 1 <= T < 2 ^ 31 -> Decode_debug T bm = Decode T bm.
+Proof. exact decode_debug_eq. Qed.
+Print Assumptions C04_decode_debug.
+
+Example C04_debug_nonvacuous :
+  Decode_debug 114 [3; 2 ^ 49 + 2 ^ 50; 1] = Some [0x20; 0x3c; 0x3f0000003f] /\
+  PathToIndex_debug 114 0x3f0000003f = Some 113 /\ PathToIndex_debug 114 0x3f0000003e = None.
+Proof. vm_compute. repeat split; reflexivity. Qed.
+
+(** enumerating a sub-tree: the window from the word of q to the word of the right-most leaf below q
+    (inclusive) holds exactly the stored nodes that have q as a prefix, in pre-order *)
+Theorem C04_subtree : forall T q, 1 <= T < 2 ^ 31 -> (length q <= Z.to_nat (Height T))%nat ->
+  let h := Z.to_nat (Height T) in
+  AllPaths T (enc h q) (enc h (q ++ repeat true (h - length q)) + 1) =
+  Some (map (enc h) (filter (stored T) (map (app q) (all_nodes (h - length q))))).
+Proof. exact allpaths_subtree. Qed.
+Print Assumptions C04_subtree.
+
+Example C04_subtree_nonvacuous :
+  AllPaths 114 (enc 6 [true; false]) (enc 6 [true; false; true; true; true; true] + 1) =
+  Some (map (enc 6) (filter (stored 114) (map (app [true; false]) (all_nodes 4)))) /\
+  length (filter (stored 114) (map (app [true; false]) (all_nodes 4))) = 28%nat.
+Proof. vm_compute. split; reflexivity. Qed.
+
+(** * across C11, C03, C12: a trie node written and read back.
+    keys --PathsOf(dedup)--> path words --PathToIndex--> bit positions --Of--> bitmap --Decode--> the same
+    path words, for keys in Go's string order that share their first [from] bits and whose path
+    lengths clamp(8|s| - from, 0, h) are stored levels of T; nothing panics on the way *)
+Theorem C04_keys_roundtrip : forall T keys from p, 1 <= T < 2 ^ 31 ->
+  Forall (fun s => bytes_ok s /\ 8 * zlen s < 2 ^ 31) keys ->
+  0 <= from -> from + Height T + 7 < 2 ^ 31 ->
+  Forall (fun s => firstn (Z.to_nat from) (msb_bits s) = p) keys ->
+  Sorted (fun a b => bytes_cmp a b <> Gt) keys ->
+  (forall s, In s keys -> Z.testbit T (clamp (8 * zlen s - from) 0 (Height T)) = true) ->
+  exists ps idxs bm,
+    PathsOf keys from (Height T) true = Some ps /\
+    map (PathToIndex T) ps = map Some idxs /\
+    Of idxs None = Some bm /\
+    Decode T bm = Some ps.
+Proof. exact keys_roundtrip. Qed.
+Print Assumptions C04_keys_roundtrip.
+
+(** keys "a", "ab", "ab", "b" (0x61, 0x6162, 0x62) from bit 3, height 6 with levels 5 and 6 stored:
+    "a" and "b" end on level 5, "ab" reaches the leaf level; the duplicate is dropped *)
+Example C04_keys_nonvacuous :
+  PathsOf [[0x61]; [0x61; 0x62]; [0x61; 0x62]; [0x62]] 3 6 true = Some [0x20000003e; 0x20000003f; 0x40000003e] /\
+  map (PathToIndex 96) [0x20000003e; 0x20000003f; 0x40000003e] = map Some [3; 4; 6] /\
+  Of [3; 4; 6] None = Some [88] /\ Decode 96 [88] = Some [0x20000003e; 0x20000003f; 0x40000003e] /\ Height 96 = 6.
+Proof. vm_compute. repeat split; reflexivity. Qed.
+
+(** * the correspondence run's own formulation (Run/C04.v): on every in-domain case the model side of
+    an operation equals its specification side, so a disagreement of the implementation with the model
+    is a disagreement with the specification *)
+Theorem C04_op_allpaths : forall T f t, c04_T_ok T = true -> c04_u64 f = true -> c04_u64 t = true ->
+  c04_win_ok T f t = true ->
+  c04_run_allpaths [VZ T; VZ f; VZ t] = c04_spec_allpaths [VZ T; VZ f; VZ t].
+Proof. exact c04_op_allpaths. Qed.
+Print Assumptions C04_op_allpaths.
+
+Theorem C04_op_decode : forall (dbg : bool) T bm, c04_T_ok T = true -> c04_dec_ok T = true ->
+  words_okb bm = true -> zlen bm < 2 ^ 31 ->
+  c04_run_decode_b dbg [VZ T; vzs bm] = c04_spec_decode [VZ T; vzs bm].
+Proof. exact c04_op_decode. Qed.
+Print Assumptions C04_op_decode.
+
+(** the domain check of the round-trip operation is the hypothesis of C04_roundtrip, and its model
+    returns the words of the sub-list *)
+Theorem C04_op_roundtrip : forall T ss, 1 <= T < 2 ^ 31 -> c04_sub_ok T ss = true ->
+  c04_roundtrip false T ss = Some (map (enc (c04_h T)) ss).
+Proof. exact c04_roundtrip_model. Qed.
+Print Assumptions C04_op_roundtrip.
